@@ -40,6 +40,7 @@ const (
 	kBlock = "block" // /* comment */
 	kHash  = "hash"  // # comment
 	kOpen  = "open"  // unterminated /* comment, last segment only; T = its text
+	kTpl   = "tpl"   // T = text between two back-ticks (template / raw string literal, may span lines)
 )
 
 // Seg is one piece of a source text. For the three comment kinds the text after the comment
@@ -68,6 +69,23 @@ type SrcFile struct {
 type Case struct {
 	Files   []SrcFile `json:"files"`
 	Filters []string  `json:"filters"`
+	// optional parts (absent in older replay files):
+	// Twice: the same scan is run a second time and judged again.
+	Twice bool `json:"twice,omitempty"`
+	// Filters2: after the first scan the same directory is scanned with these filters (same
+	// process for the API, same working directory for the CLI), then once more with Filters.
+	Filters2 []string `json:"filters2,omitempty"`
+	// Single: path of one file of the case (with a selected extension) that is afterwards scanned
+	// on its own, the file's path being given instead of the directory.
+	Single string `json:"single,omitempty"`
+	// PathForm: how the directory is named. API: 0 absolute, 1 absolute with a trailing slash.
+	// CLI: 0 "src", 1 absolute, 2 "./src", 3 "src/", 4 "." with the directory as working
+	// directory, 5 no -p at all (the default is ".") with the directory as working directory.
+	PathForm int `json:"path_form,omitempty"`
+	// OmitExt (CLI): no -e option; only when Filters is the documented default list.
+	OmitExt bool `json:"omit_ext,omitempty"`
+	// LongFlags (CLI): --path / --ext=... instead of -p / -e.
+	LongFlags bool `json:"long_flags,omitempty"`
 }
 
 func (s Seg) isComment() bool { return s.K == kLine || s.K == kBlock || s.K == kHash }
@@ -90,6 +108,8 @@ func (s Seg) text() string {
 		return "/*" + s.inner() + "*/"
 	case kOpen:
 		return "/*" + s.T
+	case kTpl:
+		return "`" + s.T + "`"
 	}
 	return ""
 }
@@ -115,10 +135,14 @@ var (
 	reBlanks    = regexp.MustCompile(`^[ \t]*$`)
 	reSep       = regexp.MustCompile(`^(|:|\([A-Za-z0-9_.+\-@]([A-Za-z0-9_ .+\-@]*[A-Za-z0-9_.+\-@])?\):?)$`)
 	reOpenText  = regexp.MustCompile(`^[A-Za-z0-9 :().\n]*$`)
-	rePathPart  = regexp.MustCompile(`^[A-Za-z0-9_]+$`)
-	reFileName  = regexp.MustCompile(`^[A-Za-z0-9_]+(\.[A-Za-z0-9_~]+)+$`)
-	reFilter    = regexp.MustCompile(`^\.[a-z]+$`)
+	rePathPart  = regexp.MustCompile(`^\.?[A-Za-z0-9_-]+(\.[A-Za-z0-9_]+)*$`)
+	reFileName  = regexp.MustCompile(`^[A-Za-z0-9_-]+(\.[A-Za-z0-9_~+]+)+$`)
+	reFilter    = regexp.MustCompile(`^\.[a-z0-9+]+$`)
 )
+
+// punctAfterMark: characters that may follow the mark directly ("TODO- x", "FIXME. y"): the text
+// begins with the mark under every reading, unlike a letter or digit (TODOS, TODO1).
+const punctAfterMark = "-.!,;?/=>"
 
 func isMark(s string) bool {
 	u := asciiUpper(s)
@@ -242,6 +266,10 @@ func guardFile(f SrcFile) string {
 					return fmt.Sprintf("segment %d: a line/hash comment must be followed by a line break", i)
 				}
 			}
+		case kTpl:
+			if strings.ContainsAny(s.T, "`\\\r") || !utf8.ValidString(s.T) {
+				return fmt.Sprintf("segment %d: not a template literal body: %q", i, s.T)
+			}
 		case kOpen:
 			if next != nil {
 				return "unterminated block comment must be the last segment"
@@ -263,6 +291,25 @@ func guardCase(c Case) string {
 	for _, f := range c.Filters {
 		if !reFilter.MatchString(f) {
 			return "filter is not a plain extension: " + f
+		}
+	}
+	for _, f := range c.Filters2 {
+		if !reFilter.MatchString(f) {
+			return "filter is not a plain extension: " + f
+		}
+	}
+	if c.OmitExt && strings.Join(c.Filters, ",") != strings.Join(selExts, ",") {
+		return "-e may only be left out for the default list"
+	}
+	if c.Single != "" {
+		ok := false
+		for _, f := range c.Files {
+			if f.Path == c.Single && selected(f.Path, c.Filters) {
+				ok = true
+			}
+		}
+		if !ok {
+			return "single-file scan of a file that is not in the case or not selected"
 		}
 	}
 	seen := map[string]bool{}
@@ -524,6 +571,36 @@ func precheck(c Case) (pbt.Verdict, bool) {
 	return pbt.Verdict{}, true
 }
 
+// scanAPI runs one AnalysisPath call; file names are reported relative to root.
+func scanAPI(root, path string, filters []string) (got []Entry, crash string) {
+	var todos []*astitodo.TODO
+	stdout := os.Stdout
+	os.Stdout = devNull // the scan prints one line per file
+	p := pbt.Call(func() { todos = todo.NewTodoApp().AnalysisPath(path, filters) })
+	os.Stdout = stdout
+	if p != "" {
+		return nil, p
+	}
+	for _, t := range todos {
+		if t == nil {
+			return nil, "AnalysisPath returned a nil entry"
+		}
+		got = append(got, Entry{File: relTo(root, t.Filename), Line: t.Line, Assignee: t.Assignee, Message: t.Message})
+	}
+	return got, ""
+}
+
+// singleCase: the case reduced to the file named by Single.
+func singleCase(c Case) Case {
+	out := Case{Filters: c.Filters}
+	for _, f := range c.Files {
+		if f.Path == c.Single {
+			out.Files = append(out.Files, f)
+		}
+	}
+	return out
+}
+
 func checkAPI(c Case) pbt.Verdict {
 	if v, ok := precheck(c); !ok {
 		return v
@@ -532,47 +609,126 @@ func checkAPI(c Case) pbt.Verdict {
 	defer os.RemoveAll(scratch)
 	root := filepath.Join(scratch, "src")
 	writeCase(c, root)
-	var todos []*astitodo.TODO
-	stdout := os.Stdout
-	os.Stdout = devNull // the scan prints one line per file
-	p := pbt.Call(func() { todos = todo.NewTodoApp().AnalysisPath(root, c.Filters) })
-	os.Stdout = stdout
-	if p != "" {
-		return pbt.Fail("AnalysisPath(dir, %v) crashed: %s\n%s", c.Filters, p, showAll(c))
+	dirArg := root
+	if c.PathForm == 1 {
+		dirArg = root + string(filepath.Separator)
 	}
-	var got []Entry
-	for _, t := range todos {
-		if t == nil {
-			return pbt.Fail("AnalysisPath returned a nil entry")
+	// the sequence of scans: (what is scanned, with which filters, the case that says what to expect)
+	type step struct {
+		what    string
+		path    string
+		filters []string
+		expect  Case
+	}
+	steps := []step{{"AnalysisPath(dir, %v)", dirArg, c.Filters, c}}
+	if c.Twice {
+		steps = append(steps, step{"second AnalysisPath(dir, %v) on the same directory", dirArg, c.Filters, c})
+	}
+	if len(c.Filters2) > 0 {
+		c2 := Case{Files: c.Files, Filters: c.Filters2}
+		steps = append(steps, step{"AnalysisPath(dir, %v) after a scan of the same directory with " + fmt.Sprint(c.Filters), dirArg, c.Filters2, c2})
+		steps = append(steps, step{"AnalysisPath(dir, %v) after a scan of the same directory with " + fmt.Sprint(c.Filters2), dirArg, c.Filters, c})
+	}
+	if c.Single != "" {
+		steps = append(steps, step{"AnalysisPath(" + c.Single + ", %v) (the file's own path instead of the directory)", filepath.Join(root, filepath.FromSlash(c.Single)), c.Filters, singleCase(c)})
+	}
+	for _, st := range steps {
+		what := fmt.Sprintf(st.what, st.filters)
+		got, crash := scanAPI(root, st.path, st.filters)
+		if crash != "" {
+			return pbt.Fail("%s crashed: %s\n%s", what, crash, showAll(c))
 		}
-		got = append(got, Entry{File: relTo(root, t.Filename), Line: t.Line, Assignee: t.Assignee, Message: t.Message})
-	}
-	if msg := compare(c, got); msg != "" {
-		return pbt.Fail("AnalysisPath(dir, %v): %s", c.Filters, msg)
+		if msg := compare(st.expect, got); msg != "" {
+			return pbt.Fail("%s: %s", what, msg)
+		}
 	}
 	return classify(c)
 }
 
-func checkCLI(c Case) pbt.Verdict {
-	if v, ok := precheck(c); !ok {
-		return v
+// cliLayout: working directory, the -p argument ("" = none) and the base that reported file
+// names are relative to.
+func cliLayout(c Case, ws string) (cwd, arg, base string) {
+	src := filepath.Join(ws, "src")
+	switch c.PathForm {
+	case 1:
+		return ws, src, src
+	case 2:
+		return ws, "./src", "src"
+	case 3:
+		return ws, "src/", "src"
+	case 4:
+		return src, ".", "."
+	case 5:
+		return src, "", "."
 	}
-	scratch := cli.Scratch("c17-")
-	defer os.RemoveAll(scratch)
-	root := filepath.Join(scratch, "ws", "src")
-	writeCase(c, root)
-	args := []string{"todo", "-p", "src", "-e", strings.Join(c.Filters, ",")}
-	res, err := cli.Run("coca", filepath.Join(scratch, "ws"), nil, args...)
+	return ws, "src", "src"
+}
+
+func cliArgs(c Case, arg string, filters []string, omitExt bool) []string {
+	args := []string{"todo"}
+	if arg != "" {
+		if c.LongFlags {
+			args = append(args, "--path", arg)
+		} else {
+			args = append(args, "-p", arg)
+		}
+	}
+	if !omitExt {
+		if c.LongFlags {
+			args = append(args, "--ext="+strings.Join(filters, ","))
+		} else {
+			args = append(args, "-e", strings.Join(filters, ","))
+		}
+	}
+	return args
+}
+
+var reTableLine = regexp.MustCompile(`^\|.*\|$`)
+
+// tableLines: the numbers in the last column of the table on stdout (one per entry; continuation
+// lines of a wrapped cell have an empty last column), and the number of the "Todos Count" line.
+func tableLines(stdout string) (lines []int, count int, msg string) {
+	count = -1
+	for _, l := range strings.Split(stdout, "\n") {
+		l = strings.TrimRight(l, "\r ")
+		if strings.HasPrefix(l, "Todos Count ") {
+			if _, err := fmt.Sscanf(l, "Todos Count %d", &count); err != nil {
+				return nil, 0, "unreadable line " + l
+			}
+			continue
+		}
+		if !reTableLine.MatchString(l) {
+			continue
+		}
+		inner := strings.TrimSuffix(l, "|")
+		last := strings.TrimSpace(inner[strings.LastIndex(inner, "|")+1:])
+		var n int
+		if _, err := fmt.Sscanf(last, "%d", &n); err == nil && fmt.Sprint(n) == last {
+			lines = append(lines, n)
+		}
+	}
+	return lines, count, ""
+}
+
+// runCLI runs one `coca todo` and judges simple-todos.json and the table against expect.
+func runCLI(c Case, ws string, filters []string, omitExt bool, expect Case, pathOverride string) string {
+	cwd, arg, base := cliLayout(c, ws)
+	if pathOverride != "" {
+		arg = pathOverride
+	}
+	args := cliArgs(c, arg, filters, omitExt)
+	res, err := cli.Run("coca", cwd, nil, args...)
 	if err != nil {
-		return pbt.Fail("HARNESS: cannot run coca: %v", err)
+		return fmt.Sprintf("HARNESS: cannot run coca: %v", err)
 	}
-	ctx := fmt.Sprintf("coca %s\nexit %d\nstdout:\n%s\nstderr:\n%s\n%s", strings.Join(args, " "), res.ExitCode, tail(res.Stdout), tail(res.Stderr), showAll(c))
+	clean := func(s string) string { return reUnstable.ReplaceAllString(strings.ReplaceAll(s, ws, "<ws>"), "…") }
+	ctx := clean(fmt.Sprintf("coca %s\nexit %d\nstdout:\n%s\nstderr:\n%s\n%s", strings.Join(args, " "), res.ExitCode, tail(res.Stdout), tail(res.Stderr), showAll(c)))
 	if res.TimedOut || res.ExitCode != 0 {
-		return pbt.Fail("`coca todo` did not complete normally (crash?)\n%s", ctx)
+		return fmt.Sprintf("`coca todo` did not complete normally (crash?)\n%s", ctx)
 	}
-	raw, err := os.ReadFile(filepath.Join(scratch, "ws", "coca_reporter", "simple-todos.json"))
+	raw, err := os.ReadFile(filepath.Join(cwd, "coca_reporter", "simple-todos.json"))
 	if err != nil {
-		return pbt.Fail("coca_reporter/simple-todos.json was not written: %v\n%s", err, ctx)
+		return fmt.Sprintf("coca_reporter/simple-todos.json was not written\n%s", ctx)
 	}
 	var todos []struct {
 		Assignee string
@@ -581,14 +737,57 @@ func checkCLI(c Case) pbt.Verdict {
 		Message  string
 	}
 	if err := json.Unmarshal(raw, &todos); err != nil {
-		return pbt.Fail("simple-todos.json is not a JSON list: %v\n%s", err, raw)
+		return fmt.Sprintf("simple-todos.json is not a JSON list: %v\n%s", err, raw)
 	}
 	var got []Entry
+	var jsonLines []int
 	for _, t := range todos {
-		got = append(got, Entry{File: relTo("src", t.Filename), Line: t.Line, Assignee: t.Assignee, Message: t.Message})
+		got = append(got, Entry{File: relTo(base, t.Filename), Line: t.Line, Assignee: t.Assignee, Message: t.Message})
+		jsonLines = append(jsonLines, t.Line)
 	}
-	if msg := compare(c, got); msg != "" {
-		return pbt.Fail("coca todo -p DIR -e %s (simple-todos.json): %s", strings.Join(c.Filters, ","), msg)
+	if msg := compare(expect, got); msg != "" {
+		return fmt.Sprintf("coca %s (simple-todos.json): %s", clean(strings.Join(args, " ")), msg)
+	}
+	// the table on stdout lists the same entries: as many rows as entries, the same line numbers
+	tl, count, msg := tableLines(res.Stdout)
+	if msg != "" {
+		return msg + "\n" + ctx
+	}
+	if count != len(todos) {
+		return fmt.Sprintf("stdout says 'Todos Count %d', simple-todos.json has %d entries\n%s", count, len(todos), ctx)
+	}
+	sort.Ints(tl)
+	sort.Ints(jsonLines)
+	if fmt.Sprint(tl) != fmt.Sprint(jsonLines) {
+		return fmt.Sprintf("the table on stdout has rows for lines %v, simple-todos.json has entries for lines %v\n%s", tl, jsonLines, ctx)
+	}
+	return ""
+}
+
+var reUnstable = regexp.MustCompile(`profile\d+|\d{4}/\d\d/\d\d \d\d:\d\d:\d\d`)
+
+func checkCLI(c Case) pbt.Verdict {
+	if v, ok := precheck(c); !ok {
+		return v
+	}
+	scratch := cli.Scratch("c17-")
+	defer os.RemoveAll(scratch)
+	ws := filepath.Join(scratch, "ws")
+	writeCase(c, filepath.Join(ws, "src"))
+	if msg := runCLI(c, ws, c.Filters, c.OmitExt, c, ""); msg != "" {
+		return pbt.Fail("%s", msg)
+	}
+	if len(c.Filters2) > 0 {
+		c2 := Case{Files: c.Files, Filters: c.Filters2}
+		if msg := runCLI(c, ws, c.Filters2, false, c2, ""); msg != "" {
+			return pbt.Fail("second run in the same working directory (first: -e %s): %s", strings.Join(c.Filters, ","), msg)
+		}
+	}
+	if c.Single != "" && c.PathForm <= 3 {
+		_, arg, _ := cliLayout(c, ws)
+		if msg := runCLI(c, ws, c.Filters, false, singleCase(c), strings.TrimSuffix(arg, "/")+"/"+c.Single); msg != "" {
+			return pbt.Fail("the file's own path instead of the directory: %s", msg)
+		}
 	}
 	return classify(c)
 }
@@ -722,10 +921,10 @@ var (
 	numbers    = []string{"0", "42", "3.14", "0x1F", "1e9", "1_000", "10L", ".5", "07"}
 	operators  = []string{"=", "+", "-", "*", "/", "==", "<=", "->", "::", "&&", "/=", "*=", "%", "!", "~", "?", ":", "++", "...", "@", ">>>=", "|"}
 	separators = []string{";", "(", ")", "{", "}", "[", "]", ",", "."}
-	wsList     = []string{" ", "\n", "", "\t", "  ", "\n\n", " \n", "\n    ", "\r\n", "\n\t"}
+	wsList     = []string{" ", "\n", "", "\t", "  ", "\n\n", " \n", "\n    ", "\r\n", "\n\t", "\n\n\n\n\n\n\n\n\n\n\n"}
 	leads      = []string{" ", "", "\t", "  ", " \t "}
 	marks      = []string{"TODO", "FIXME", "todo", "fixme", "Todo", "FixMe", "tOdO", "ToDo", "FIXme", "toDO"}
-	names      = []string{"bob", "a", "phodal", "j.doe", "a b", "x@y.z", "me+you", "A_1", "k-9", "a  b"}
+	names      = []string{"bob", "a", "phodal", "j.doe", "a b", "x@y.z", "me+you", "A_1", "k-9", "a  b", "Bob", "B", "9lives", "QA", "very.long_name-with+all@kinds.of.chars", "_", "007", "a.b.c"}
 	strPieces  = []string{"a", " ", "//", "/*", "*/", "#", "TODO", "TODO: x", "FIXME(bob): y", "// TODO: z", "/* todo */", "# fixme", `\n`, `\"`, `\\`, `\'`, `\u0041`, `\0`, `\177`, "'", "é", "x=1;", "%s"}
 	chrList    = []string{"a", "#", "/", "*", `"`, `\'`, `\\`, `\n`, `\u0041`, "é", " ", `\7`, "T"}
 	// message / comment text pieces; line breaks are added for block comments only
@@ -734,10 +933,19 @@ var (
 	nlPieces   = []string{"\n", "\n * ", "\n\t", "\n *", "\r\n", "\n\n"}
 	openPieces = []string{"a", " ", "TODO", "TODO: x", "\n", "fixme(b) y", ".", "(", ")", "1"}
 	selExts    = []string{".java", ".py", ".go", ".ts", ".js", ".kt", ".groovy", ".gradle"}
-	otherExts  = []string{".txt", ".ajava", ".mjs", ".javax", ".java~", ".java.txt", ".jav", ".kts", ".gradle.kts", ".c", ".rb", ".md", ".pyc", ".tsx", ".json"}
-	stemList   = []string{"a", "Main", "b_1", "Todo", "x", "util"}
-	dirList    = []string{"", "", "pkg", "pkg/inner", "src", "java"}
+	otherExts  = []string{".txt", ".ajava", ".mjs", ".javax", ".java~", ".java.txt", ".jav", ".kts", ".gradle.kts", ".c", ".rb", ".md", ".pyc", ".tsx", ".json", ".cc", ".hh", ".f90x", ".c+", ".h2"}
+	extraExts  = []string{".c", ".rb", ".txt", ".h", ".f90", ".c++", ".m4", ".s"}
+	stemList   = []string{"a", "Main", "b_1", "Todo", "x", "util", "java", "my-file", "py"}
+	// dirList: "" = the scanned directory itself. Hidden directories, directories that tools
+	// commonly skip (vendor, node_modules, build, target, testdata), deep nesting, and directories
+	// whose name ends in a selected extension (highlight.js, pkg.java, x.py, app.go) are directories
+	// like any other: the files in them are scanned, the directories themselves are not files.
+	dirList = []string{"", "", "pkg", "pkg/inner", "src", "java", ".hidden", "vendor/lib", "node_modules/highlight.js", "build", "target/classes", "testdata", "test-data", "a/b/c/d", "pkg.java", "x.py", "app.go/cmd", "v1.2"}
+	tplPieces = []string{"a", " ", "//", "/*", "*/", "#", "TODO", "TODO: x", "// FIXME(bob): y", "\n", "\n# todo: z\n", "/* todo */", "'", "\"", "${x}", "é", "\n// TODO: in a raw string"}
 )
+
+// dotDirsAllowed: directories whose name ends in a selected extension (feature switch of a finding).
+func dotDirsAllowed() bool { return !pbt.Excluded("directory_named_like_a_selected_file") }
 
 // starAllowed: an asterisk inside the message of a line or hash comment (feature switch of a
 // finding; see known_findings.json).
@@ -799,12 +1007,21 @@ func genComment(ch chooser, kind string) Seg {
 		}
 		s.Gap = pick(ch, leads)
 		s.Body = genText(ch, kind, 5, star)
-		if ch.n(9) == 9 { // marker only
+		shape2 := ch.n(9)
+		if shape2 == 9 { // marker only
 			s.Sep, s.Gap, s.Body = "", "", ""
 		}
 		// keep the message inside the unambiguous forms
 		s.Body = strings.TrimLeftFunc(s.Body, func(r rune) bool { return unicode.IsSpace(r) || r == ':' || r == '(' })
-		if s.Sep == "" && s.Gap == "" && s.Body != "" {
+		if shape2 == 8 { // punctuation directly after the mark: "TODO- x", "FIXME. y"
+			s.Sep, s.Gap = "", ""
+			punct := string(punctAfterMark[ch.n(len(punctAfterMark)-1)])
+			if kind == kBlock && punct == "/" && s.Body == "" {
+				punct = "-" // "TODO/" + "*/" would read "TODO/*/"; harmless, but keep the text plain
+			}
+			s.Body = punct + s.Body
+		}
+		if s.Sep == "" && s.Gap == "" && s.Body != "" && !strings.ContainsRune(punctAfterMark, firstRune(s.Body)) {
 			s.Gap = " "
 		}
 	case shape <= 7: // ordinary comment, possibly mentioning TODO later
@@ -842,8 +1059,19 @@ func genSegs(ch chooser, maxSegs int) []Seg {
 	for i := 0; i < n; i++ {
 		var s Seg
 		switch k := ch.n(15); {
-		case k <= 2:
+		case k <= 1:
 			s = Seg{K: kCode, T: pick(ch, idents)}
+		case k == 2:
+			if ch.n(2) == 2 {
+				var sb strings.Builder
+				m := ch.n(4)
+				for i := 0; i < m; i++ {
+					sb.WriteString(pick(ch, tplPieces))
+				}
+				s = Seg{K: kTpl, T: sb.String()}
+			} else {
+				s = Seg{K: kCode, T: pick(ch, idents)}
+			}
 		case k == 3:
 			s = Seg{K: kCode, T: pick(ch, numbers)}
 		case k == 4:
